@@ -100,7 +100,7 @@ func main() {
 		}
 		rep.Packages = append(rep.Packages, p.PkgPath)
 		w := &weaver{pkg: p, rep: rep, imports: map[string]string{}, tramps: map[string]string{}}
-		dir := filepath.Join(*out, p.Name)
+		dir := filepath.Join(*out, strings.ReplaceAll(strings.TrimPrefix(p.PkgPath, "github.com/biogo/biogo/"), "/", "_"))
 		if err := os.MkdirAll(dir, 0o755); err != nil {
 			fatal("%v", err)
 		}
@@ -202,6 +202,16 @@ func (w *weaver) file(f *ast.File, name string) {
 	// refuse / note unmodelled primitives used anywhere in the file
 	for idn, obj := range w.info().Uses {
 		if obj.Pkg() == nil {
+			continue
+		}
+		// only package-level functions and types (not e.g. the method time.Time.After)
+		switch o := obj.(type) {
+		case *types.Func:
+			if sig, ok := o.Type().(*types.Signature); ok && sig.Recv() != nil {
+				continue
+			}
+		case *types.TypeName:
+		default:
 			continue
 		}
 		switch obj.Pkg().Path() {
